@@ -70,7 +70,7 @@ impl Exec {
     }
 
     /// perform one operation line on the implementation and print it with its observation
-    pub fn exec(&mut self, op: &str) {
+    pub fn exec(&mut self, op: &str) -> String {
         self.ops += 1;
         self.line(op);
         let toks: Vec<&str> = op.split_whitespace().collect();
@@ -260,6 +260,7 @@ impl Exec {
         };
         let l = format!("< {}", r);
         self.line(&l);
+        r
     }
 
     pub fn node(&mut self) {
@@ -755,6 +756,446 @@ fn epfamilies(e: &mut Exec) {
     }
 }
 
+type FullPos = (String, char, u8, String);
+fn full_pos(b: &Board) -> FullPos {
+    let p = Pos::of_board(b);
+    let cells: String = p.cells.iter().map(|c| match c { Some((p, c)) => pchar(*p, *c), None => '.' }).collect();
+    (cells, cchar(p.turn), p.rights, p.ep.map(sqname).unwrap_or_else(|| "-".into()))
+}
+
+/// C17: shuffling games in which every position is registered as it arises; the count
+/// returned is compared with a reference multiset of (placement, side, rights, ep)
+fn repetition(e: &mut Exec, rng: &mut Rng, len: usize, undo_pct: u64) {
+    let mut reference: HashMap<FullPos, u32> = HashMap::new();
+    let mut trail: Vec<FullPos> = vec![];
+    let reg = |e: &mut Exec, reference: &mut HashMap<FullPos, u32>, trail: &mut Vec<FullPos>| {
+        let fp = full_pos(&e.ctx.board);
+        let want = {
+            let c = reference.entry(fp.clone()).or_insert(0);
+            *c += 1;
+            *c
+        };
+        trail.push(fp.clone());
+        let r = e.exec("count");
+        if r != format!("count {}", want) {
+            let msg = format!("! C17 registering [{} {} {} {}] returned [{}] but it has now been registered {} time(s)", fp.0, fp.1, fp.2, fp.3, r, want);
+            e.line(&msg);
+        }
+        if want == 3 {
+            e.tally("third-occurrence");
+            let v = e.exec("verdict");
+            if !v.ends_with(" D") && v != "PANIC" {
+                let msg = format!("! C17 third occurrence of [{} {} {} {}] not reported as drawn: [{}]", fp.0, fp.1, fp.2, fp.3, v);
+                e.line(&msg);
+            }
+        } else if want >= 2 {
+            e.tally("second-occurrence");
+        }
+    };
+    reg(e, &mut reference, &mut trail);
+    let mut last_own: [Option<(usize, usize)>; 2] = [None, None];
+    let mut plies = 0;
+    while plies < len {
+        if e.ctx.stack.len() > 0 && rng.chance(undo_pct, 100) {
+            // unregister, then take the move back
+            let fp = trail.pop().unwrap();
+            let want = {
+                let c = reference.get_mut(&fp).unwrap();
+                *c -= 1;
+                *c
+            };
+            let r = e.exec("uncount");
+            if r != format!("count {}", want) {
+                let msg = format!("! C17 unregistering [{} {} {} {}] returned [{}], expected {}", fp.0, fp.1, fp.2, fp.3, r, want);
+                e.line(&msg);
+            }
+            e.unplay();
+            continue;
+        }
+        let ms = e.legal();
+        if ms.is_empty() {
+            break;
+        }
+        let side = if e.ctx.board.turn() == Color::White { 0 } else { 1 };
+        // prefer reversible shuffles; often take the previous own move back
+        let quiet: Vec<&ChessMove> = ms.iter().filter(|m| matches!(m, ChessMove::Standard(_)) && m.captures().is_none() && e.ctx.board.get(m.from_square()).map(|(p, _)| p != Piece::Pawn).unwrap_or(false)).collect();
+        let back: Option<&ChessMove> = last_own[side].and_then(|(f, t)| quiet.iter().find(|m| idx(m.from_square()) == t && idx(m.to_square()) == f).copied());
+        let m = if back.is_some() && rng.chance(60, 100) {
+            back.unwrap().clone()
+        } else if !quiet.is_empty() && rng.chance(85, 100) {
+            quiet[rng.below(quiet.len())].clone()
+        } else {
+            ms[rng.below(ms.len())].clone()
+        };
+        last_own[side] = Some((idx(m.from_square()), idx(m.to_square())));
+        e.play(&m);
+        reg(e, &mut reference, &mut trail);
+        plies += 1;
+    }
+}
+
+fn parse_search_move(r: &str) -> Option<ChessMove> {
+    // "search Ok <score> <move>"
+    let t: Vec<&str> = r.split_whitespace().collect();
+    if t.len() >= 4 && t[1] == "Ok" {
+        Some(parse_mv(t[3]))
+    } else {
+        None
+    }
+}
+
+/// C07 / C08: searches at several depths and pool sizes, fresh contexts and a context
+/// reused along a game
+fn searches(e: &mut Exec, rng: &mut Rng, kv: &Args, positions: &[(String, Pos)]) {
+    let depths: Vec<u8> = kv.get("depths", "0,1,2").split(',').map(|d| d.parse().unwrap()).collect();
+    let pools: Vec<usize> = kv.get("pools", "1,4").split(',').map(|d| d.parse().unwrap()).collect();
+    let game_plies = kv.num("game", 0) as usize;
+    for (name, p) in positions {
+        e.line(&format!("# search position {}", name));
+        e.exec(&format!("pos {}", p.line()));
+        for d in depths.iter() {
+            let n = pools[rng.below(pools.len())];
+            e.exec(&format!("sctx {}", d));
+            e.exec(&format!("search {}", n));
+            e.exec("snap");
+        }
+        if game_plies > 0 {
+            // one context reused across the successive searches of a game
+            let d = *depths.iter().max().unwrap();
+            e.exec(&format!("sctx {}", d));
+            for _ in 0..game_plies {
+                let n = pools[rng.below(pools.len())];
+                let r = e.exec(&format!("search {}", n));
+                match parse_search_move(&r) {
+                    Some(m) => e.play(&m),
+                    None => break,
+                }
+            }
+        }
+    }
+}
+
+/// positions met along random walks (reachable, varied)
+fn walk_positions(rng: &mut Rng, corpus: &[(String, Pos)], count: usize, max_pieces: usize) -> Vec<(String, Pos)> {
+    let mut out = vec![];
+    let mut mg = chess::move_generator::MoveGenerator::with_cache_capacity(64);
+    let mut guard_n = 0;
+    while out.len() < count && guard_n < count * 50 {
+        guard_n += 1;
+        let (name, p) = &corpus[rng.below(corpus.len())];
+        let mut b = p.setup();
+        let plies = rng.below(30);
+        for _ in 0..plies {
+            mg.clear_caches_for_verif();
+            let t = b.turn();
+            let ms = mg.generate_moves(&mut b, t);
+            if ms.is_empty() {
+                break;
+            }
+            let m = ms[rng.below(ms.len())].clone();
+            m.apply(&mut b).unwrap();
+            b.toggle_turn();
+        }
+        if piece_counts(&b) <= max_pieces {
+            let mut q = Pos::of_board(&b);
+            q.half = q.half.min(20);
+            out.push((format!("{}+{}", name, plies), q));
+        }
+    }
+    out
+}
+
+/// C10: count_positions at several depths, pool sizes, fresh and used generators
+fn perfts(e: &mut Exec, rng: &mut Rng, kv: &Args, positions: &[(String, Pos)]) {
+    let maxd = kv.num("depth", 2) as u8;
+    let pools = [1usize, 2, 4, 16];
+    for (name, p) in positions {
+        e.line(&format!("# perft position {}", name));
+        e.exec(&format!("pos {}", p.line()));
+        for d in 0..=maxd {
+            let n = pools[rng.below(pools.len())];
+            e.exec(&format!("perft {} {}", d, n));
+        }
+        // a generator that has been used before (other positions, this position)
+        let n = pools[rng.below(pools.len())];
+        e.exec(&format!("perft {} {} long", maxd.min(2), n));
+        e.exec("snap");
+    }
+}
+
+fn mutate_label(rng: &mut Rng, s: &str) -> String {
+    let mut c: Vec<char> = s.chars().collect();
+    match rng.below(7) {
+        0 => {
+            // drop or add the capture mark
+            if let Some(i) = c.iter().position(|&x| x == 'x') {
+                c.remove(i);
+            } else if c.len() >= 2 {
+                let i = c.len() - 2 - if c.last() == Some(&'+') || c.last() == Some(&'#') { 1 } else { 0 };
+                if i <= c.len() {
+                    c.insert(i.min(c.len()), 'x');
+                }
+            }
+        }
+        1 => {
+            // toggle the check mark
+            if c.last() == Some(&'+') || c.last() == Some(&'#') {
+                c.pop();
+            } else {
+                c.push('+');
+            }
+        }
+        2 => {
+            // superfluous or wrong disambiguation
+            if !c.is_empty() && c[0].is_ascii_uppercase() && c[0] != 'O' {
+                c.insert(1, (b'a' + rng.below(8) as u8) as char);
+            }
+        }
+        3 => {
+            // shift the destination
+            if let Some(i) = c.iter().rposition(|x| x.is_ascii_digit()) {
+                c[i] = (b'1' + rng.below(8) as u8) as char;
+            }
+        }
+        4 => {
+            if !c.is_empty() && c[0].is_ascii_uppercase() && c[0] != 'O' {
+                c[0] = ['N', 'B', 'R', 'Q', 'K'][rng.below(5)];
+            }
+        }
+        5 => {
+            c.push('#');
+        }
+        _ => {
+            if c.len() > 1 {
+                c.remove(0);
+            }
+        }
+    }
+    let r: String = c.into_iter().collect();
+    if r.is_empty() {
+        "x".to_string()
+    } else {
+        r
+    }
+}
+
+/// C14: games played through the Game API with accepted and rejected inputs
+fn games(e: &mut Exec, rng: &mut Rng, kv: &Args, positions: &[(String, Pos)]) {
+    let plies = kv.num("len", 30) as usize;
+    let all_pairs_every = kv.num("allpairs", 0) as usize; // every k-th node: all 4096 coordinate pairs
+    let mut node_no = 0usize;
+    for (name, p) in positions {
+        e.line(&format!("# game from {}", name));
+        e.exec(&format!("pos {}", p.line()));
+        e.exec("game 1");
+        let mut prev_labels: Vec<String> = vec![];
+        for _ply in 0..plies {
+            node_no += 1;
+            let before = e.exec("gsnap");
+            let labels_line = e.exec("glabels");
+            let labelled: Vec<(String, String)> = labels_line.split_whitespace().skip(1).filter_map(|t| t.split_once(':').map(|(a, b)| (a.to_string(), b.to_string()))).collect();
+            if labelled.is_empty() {
+                break;
+            }
+            let legal_texts: Vec<String> = labelled.iter().map(|(m, _)| m.clone()).collect();
+            let label_set: Vec<String> = labelled.iter().map(|(_, l)| l.clone()).collect();
+            // ---- rejected inputs leave everything as it was
+            let mut rejects: Vec<String> = vec![];
+            for _ in 0..6 {
+                let (_, l) = &labelled[rng.below(labelled.len())];
+                let mu = mutate_label(rng, l);
+                if !label_set.contains(&mu) {
+                    rejects.push(format!("galg {}", mu));
+                }
+            }
+            for l in prev_labels.iter().take(40) {
+                if !label_set.contains(l) && rng.chance(1, 4) {
+                    rejects.push(format!("galg {}", l)); // legal in the previous position / for the other side
+                }
+            }
+            let pairs: Vec<(usize, usize)> = if all_pairs_every > 0 && node_no % all_pairs_every == 0 {
+                (0..4096).map(|k| (k / 64, k % 64)).collect()
+            } else {
+                (0..24).map(|_| (rng.below(64), rng.below(64))).collect()
+            };
+            for (f, t) in pairs {
+                let is_legal = legal_texts.iter().any(|m| parse_sq(&m[1..3]) == f && parse_sq(&m[3..5]) == t);
+                if !is_legal {
+                    rejects.push(format!("gcoord {} {}", sqname(f), sqname(t)));
+                }
+            }
+            for r in rejects {
+                let res = e.exec(&r);
+                if res.contains(" Ok") {
+                    let msg = format!("! C14 input `{}` does not name a legal move of [{}] but was accepted: {}", r, before, res);
+                    e.line(&msg);
+                    // the game has moved on; resynchronise by ending this game
+                    break;
+                }
+                e.tally("rejected-inputs");
+            }
+            let after_rejects = e.exec("gsnap");
+            if after_rejects != before {
+                let msg = format!("! C14 rejected inputs changed the game: before [{}] after [{}]", before, after_rejects);
+                e.line(&msg);
+                break;
+            }
+            // ---- one accepted input: plays exactly the named move
+            let k = rng.below(labelled.len());
+            // favour special moves
+            let specials: Vec<usize> = (0..labelled.len()).filter(|&i| !labelled[i].0.starts_with('S') || labelled[i].0.contains('x')).collect();
+            let k = if !specials.is_empty() && rng.chance(40, 100) { specials[rng.below(specials.len())] } else { k };
+            let (mtext, label) = labelled[k].clone();
+            let by_label = rng.chance(1, 2);
+            let g_board_before = e.extra.game.as_ref().unwrap().board().clone();
+            let (res, expect_move) = if by_label {
+                (e.exec(&format!("galg {}", label)), mtext.clone())
+            } else {
+                // coordinates name the first legal move with these squares (the queen promotion)
+                let (f, t) = (&mtext[1..3], &mtext[3..5]);
+                let first = legal_texts.iter().find(|m| &m[1..3] == f && &m[3..5] == t).unwrap().clone();
+                if first.starts_with('P') && !first.ends_with("=Q") {
+                    let msg = format!("! C14 coordinate pair {}{} names a promotion but the first candidate is {} (not the queen)", f, t, first);
+                    e.line(&msg);
+                }
+                (e.exec(&format!("gcoord {} {}", f, t)), first)
+            };
+            e.tally(if by_label { "accepted-by-label" } else { "accepted-by-coordinates" });
+            let want_ok = format!("{} Ok {}", if by_label { "galg" } else { "gcoord" }, expect_move);
+            if res != want_ok {
+                let msg = format!("! C14 legal input for {} answered [{}] in [{}]", expect_move, res, before);
+                e.line(&msg);
+                break;
+            }
+            // the board is exactly apply(move) of the previous board, the history grew by it
+            let mut expect_board = g_board_before.clone();
+            parse_mv(&expect_move).apply(&mut expect_board).unwrap();
+            let got = full_snapshot(e.extra.game.as_ref().unwrap().board());
+            if got != full_snapshot(&expect_board) {
+                let msg = format!("! C14 accepted input {} did not play exactly that move: board [{}] expected [{}]", expect_move, got, full_snapshot(&expect_board));
+                e.line(&msg);
+            }
+            let last = e.extra.game.as_ref().unwrap().last_move().map(|m| mv_text(&m));
+            if last.as_deref() != Some(expect_move.as_str()) {
+                let msg = format!("! C14 accepted input {} not recorded as the last move of the history ({:?})", expect_move, last);
+                e.line(&msg);
+            }
+            e.exec("gsnap");
+            e.exec("gtoggle");
+            prev_labels = label_set;
+        }
+    }
+}
+
+/// C15: the compiled book against the translated lines, and the engine's move at book
+/// nodes, off-book histories and supplied positions
+fn book_and_engine(e: &mut Exec, rng: &mut Rng, kv: &Args, positions: &[(String, Pos)]) {
+    let lines = std::fs::read_to_string("/repo/opening_lines.txt").unwrap_or_default();
+    let mut all: Vec<Vec<String>> = vec![];
+    for l in lines.lines() {
+        let parts: Vec<&str> = l.split(": ").collect();
+        if parts.len() == 2 {
+            all.push(parts[1].split(' ').map(|t| t.chars().take(4).collect::<String>().to_lowercase()).collect());
+        }
+    }
+    // (a) every prefix of every line: the trie offers exactly the lines' continuations
+    let mut seen = std::collections::HashSet::new();
+    for line in all.iter() {
+        for k in 0..=line.len() {
+            let pre = line[..k].join(" ");
+            if seen.insert(pre.clone()) {
+                e.exec(format!("book {}", pre).trim_end());
+                e.tally("book-nodes");
+            }
+        }
+    }
+    for _ in 0..20 {
+        // off-book probes
+        let n = 1 + rng.below(3);
+        let pre: Vec<String> = (0..n).map(|_| format!("{}{}", sqname(rng.below(64)), sqname(rng.below(64)))).collect();
+        e.exec(&format!("book {}", pre.join(" ")));
+    }
+    // (b) the engine follows every book line move by move (repeated to hit continuations)
+    let depth = kv.num("sdepth", 1);
+    let reps = kv.num("reps", 1) as usize;
+    let shard = kv.num("shard", 0) as usize;
+    let shards = kv.num("shards", 1) as usize;
+    for (li, line) in all.iter().enumerate() {
+        if li % shards != shard {
+            continue;
+        }
+        for _ in 0..reps {
+            e.exec(&format!("gnew {}", depth));
+            // force the game down this line, asking the engine at every node
+            for mv in line.iter() {
+                let snap_before = e.exec("gsnap");
+                let r = e.exec("gengine");
+                if !r.starts_with("gengine Ok") {
+                    let msg = format!("! C15 engine asked for a move in a position with legal moves answered [{}] after book prefix, in [{}]", r, snap_before);
+                    e.line(&msg);
+                    break;
+                }
+                // take the engine's move back and play the line's move instead
+                let chosen = r.split_whitespace().nth(2).unwrap().to_string();
+                e.exec(&format!("gsync {}", chosen));
+                e.exec("gunplay");
+                let res = e.exec(&format!("gcoord {} {}", &mv[0..2], &mv[2..4]));
+                if !res.contains(" Ok") {
+                    let msg = format!("! C15 book move {} is not a legal move in [{}]", mv, snap_before);
+                    e.line(&msg);
+                    break;
+                }
+                e.exec("gtoggle");
+                e.tally("engine-at-book-node");
+            }
+            // and a few plies past the end of the line
+            for _ in 0..2 {
+                let r = e.exec("gengine");
+                if r.starts_with("gengine Ok") {
+                    let chosen = r.split_whitespace().nth(2).unwrap().to_string();
+                    e.exec(&format!("gsync {}", chosen));
+                    e.exec("gtoggle");
+                } else {
+                    let over = e.exec("gover");
+                    if over.ends_with(" -") {
+                        let msg = format!("! C15 engine answered [{}] although the game is not over", r);
+                        e.line(&msg);
+                    }
+                    break;
+                }
+            }
+        }
+    }
+    // (c) supplied starting positions (empty history matches the book root)
+    for (pi, (name, p)) in positions.iter().enumerate() {
+        if pi % shards != shard {
+            continue;
+        }
+        e.line(&format!("# engine from supplied position {}", name));
+        e.exec(&format!("pos {}", p.line()));
+        e.exec(&format!("game {}", depth));
+        for _ in 0..3 {
+            let n_legal = {
+                let g = e.extra.game.as_mut().unwrap();
+                g.enumerated_candidate_moves().len()
+            };
+            let r = e.exec("gengine");
+            if r.starts_with("gengine Ok") {
+                let chosen = r.split_whitespace().nth(2).unwrap().to_string();
+                e.exec(&format!("gsync {}", chosen));
+                e.exec("gtoggle");
+                e.tally("engine-from-supplied-position");
+            } else {
+                if n_legal > 0 {
+                    let msg = format!("! C15 engine answered [{}] in supplied position {} which has {} legal moves", r, name, n_legal);
+                    e.line(&msg);
+                }
+                break;
+            }
+        }
+    }
+}
+
 pub fn run(kv: &Args) {
     let family = kv.get("family", "walk");
     let seed = kv.num("seed", 1);
@@ -817,6 +1258,42 @@ pub fn run(kv: &Args) {
                     continue;
                 }
                 history(&mut e, &mut r, len);
+            }
+        }
+        "repetition" => {
+            let count = kv.num("count", 20) as usize;
+            let len = kv.num("len", 80) as usize;
+            let undo = kv.num("undo", 10);
+            let corpus = corpus_subset(kv);
+            for i in 0..count {
+                let mut r = Rng(seed.wrapping_mul(15485863).wrapping_add(i as u64));
+                if i % shards != shard {
+                    continue;
+                }
+                let (name, p) = &corpus[r.below(corpus.len())];
+                e.line(&format!("# repetition game {} from {}", i, name));
+                e.exec(&format!("pos {}", p.line()));
+                repetition(&mut e, &mut r, len, undo);
+            }
+        }
+        "searches" | "perfts" | "games" | "engine" => {
+            let mut positions: Vec<(String, Pos)> = corpus_subset(kv);
+            let extra = kv.num("walkpos", 0) as usize;
+            let maxp = kv.num("maxpieces", 32) as usize;
+            if maxp < 32 {
+                positions.retain(|(_, p)| p.cells.iter().filter(|c| c.is_some()).count() <= maxp);
+            }
+            let corpus = corpus_subset(kv);
+            positions.extend(walk_positions(&mut rng, &corpus, extra, maxp));
+            if family != "engine" {
+                positions = positions.into_iter().enumerate().filter(|(i, _)| i % shards == shard).map(|(_, p)| p).collect();
+            }
+            let mut r = Rng(seed.wrapping_mul(32452843).wrapping_add(shard as u64));
+            match family.as_str() {
+                "searches" => searches(&mut e, &mut r, kv, &positions),
+                "perfts" => perfts(&mut e, &mut r, kv, &positions),
+                "games" => games(&mut e, &mut r, kv, &positions),
+                _ => book_and_engine(&mut e, &mut r, kv, &positions),
             }
         }
         "epfamilies" => {
